@@ -338,7 +338,7 @@ impl Codec {
 
         let max_out_size = self.max_out_size.get();
         let max_size = if max_out_size != 0 {
-            max_out_size
+            min(max_out_size, MAX_PACKET_SIZE)
         } else {
             MAX_PACKET_SIZE
         };
@@ -359,9 +359,13 @@ impl Codec {
                 }
             }
             Encoded::Publish(pkt, buf) => {
-                let content_size = pkt.encoded_size(max_size) as u32;
-                if content_size > max_size {
+                let content_size = pkt.encoded_size(max_size);
+                if content_size > max_size as usize {
                     return Err(EncodeError::OverMaxPacketSize);
+                }
+                let content_size = content_size as u32; // safe: max_size <= MAX_PACKET_SIZE
+                if buf.as_ref().is_some_and(|buf| buf.len() > pkt.payload_size as usize) {
+                    return Err(EncodeError::OverPublishSize);
                 }
                 self.check_frame_size(content_size)?;
 
